@@ -2,6 +2,7 @@ package props
 
 import (
 	"context"
+	"encoding/json"
 	"fmt"
 	"os"
 	"sort"
@@ -123,6 +124,13 @@ func c10MutationsAt(n descNode) []string {
 			muts = append(muts, "propdefault:unparsable", "propdefault:{}", "propdefault:list")
 			for i := 0; i < 10; i++ {
 				muts = append(muts, fmt.Sprintf("propdefault:nest#%d", i)) // (property name, inner value) combinations
+			}
+			if tm := anyMap(m["type"]); strings.HasPrefix(fmt.Sprint(tm["type_id"]), "one_of") {
+				// a default that selects a member of the one-of by its discriminator and supplies nothing else: if that
+				// member leads back to this object, the default expands for ever
+				for i := 0; i < 8; i++ {
+					muts = append(muts, fmt.Sprintf("propdefault:member#%d", i))
+				}
 			}
 		}
 		if fmt.Sprint(m["type_id"]) == "object" {
@@ -311,6 +319,38 @@ func c10Apply(root any, idx int, mut string, r *wk.Rand) (string, bool) {
 		default:
 			m["default"] = `[{}, {"` + name + `": {}}]`
 		}
+	case "propdefault:member#0", "propdefault:member#1", "propdefault:member#2", "propdefault:member#3",
+		"propdefault:member#4", "propdefault:member#5", "propdefault:member#6", "propdefault:member#7":
+		m, _ := n.val.(map[string]any)
+		tm := anyMap(m["type"])
+		var keys []string
+		switch types := tm["types"].(type) {
+		case map[any]any:
+			for k := range types {
+				keys = append(keys, fmt.Sprint(k))
+			}
+		case map[string]any:
+			for k := range types {
+				keys = append(keys, k)
+			}
+		}
+		sort.Strings(keys)
+		if len(keys) == 0 {
+			ok = false
+			break
+		}
+		i := int(mut[len(mut)-1] - '0')
+		key := keys[(i/2)%len(keys)]
+		disc := fmt.Sprint(tm["discriminator_field_name"])
+		if disc == "" || disc == "<nil>" {
+			disc = "_type"
+		}
+		kj, _ := json.Marshal(key)
+		if i%2 == 0 && fmt.Sprint(tm["type_id"]) == "one_of_int" {
+			kj = []byte(key) // as a JSON number
+		}
+		dj, _ := json.Marshal(disc)
+		m["default"] = "{" + string(dj) + ": " + string(kj) + "}"
 	case "objid+baddefault":
 		m, _ := n.val.(map[string]any)
 		var ids []string
